@@ -1,0 +1,24 @@
+//go:build verif
+
+package api
+
+// Contracts checked by /verif (gvc). This file contains comments only and is compiled only with -tags verif.
+// Property C18: paging through any list with any page index and size yields each element once, in order, and never more
+// than the advertised page limit.
+
+//@ func GetRange(index, count, listLen) -> (start, end)
+//@   ensures[start] start == min(index * count, listLen)
+//@   ensures[end] end == min(index * count + count, listLen)
+//@   ensures[limit] end - start <= count
+//@   modifies nothing
+
+// Successive pages are contiguous, disjoint and cover [0, listLen).
+//@ lemma pages_partition
+//@   vars index uint32, count uint32, listLen uint32
+//@   assume count > 0
+//@   let a = GetRange(index, count, listLen)
+//@   let b = GetRange(index + 1, count, listLen)
+//@   assert[contiguous] index + 1 < pow2(32) ==> a.1 == b.0
+//@   assert[ordered] a.0 <= a.1 && a.1 <= listLen
+//@   assert[first] index == 0 ==> a.0 == 0
+//@   assert[covers] index * count >= listLen ==> a.0 == listLen && a.1 == listLen
